@@ -1,34 +1,52 @@
 import FatVerif.Proofs.IoSafeModel4
-/-! C09, part 5: `createDir`, the one operation that re-raises a caught error only after a fallible roll-back. -/
+/-! C09, part 5: `createDir`, the one operation that re-raises a caught error only after a fallible roll-back of its
+    own; and the tolerated outcomes of the whole API. -/
 namespace FatVerif
 
 /-- an error the roll-back `free_cluster_chain(cluster)` of `create_dir` returns when run after the fault `f` fired -/
 def RollbackErr (f : Fault) (e : Err) : Prop :=
   ∃ (c : Nat) (d1 d2 : Dev), d1.failAt = none ∧ d1.fault = some f ∧ run (freeClusterChain c) d1 = (.error e, d2)
 
-theorem createDir_propagatesX (env) : ∀ fuel d path, PropagatesX RollbackErr (createDir env fuel d path) := by
+/-- what the API may return instead of `io k` after a fault `f` outside a destructor: the error of a failed
+    `create_dir` roll-back, or the error of a failed `write_entry` roll-back (`EntryRollbackX`) — both run after the fault -/
+def ApiX (f : Fault) (e : Err) : Prop := RollbackErr f e ∨ EntryRollbackX f e
+
+theorem writeEntry_apiX (d : DirStream) (name : String) (raw : DirFileEntryData) :
+    PropagatesX ApiX (writeEntry d name raw) := (writeEntry_propagatesX d name raw).mono (fun _ _ h => Or.inr h)
+
+theorem createDir_propagatesX (env) : ∀ fuel d path, PropagatesX ApiX (createDir env fuel d path) := by
   intro fuel
   induction fuel with
   | zero => intros; unfold createDir; exact (ioSafe_propagates (IoSafe.fail _)).toX
   | succ k ih =>
     intro d path; unfold createDir
-    refine PropagatesX.bind (ioSafe_propagates IoSafe.progGetFs).toX (fun fs => ?_)
+    refine PropagatesX.bind_ioSafe IoSafe.progGetFs (fun fs => ?_)
     split
     rename_i name rest _
     split
-    · refine PropagatesX.bind (ioSafe_propagates (findEntry_ioSafe _ _ _ _)).toX (fun e => ?_)
-      refine PropagatesX.bind (ioSafe_propagates (DirEntry.toDir_ioSafe _ _)).toX (fun sub => ?_)
-      exact PropagatesX.finallyDrop (ih _ _) (fun _ => DirStream.dropBody_nonFatal _)
-    · refine PropagatesX.bind (ioSafe_propagates (checkForExistence_ioSafe _ _ _ _)).toX (fun r => ?_)
+    · refine PropagatesX.bind_ioSafe (findEntry_ioSafe _ _ _ _) (fun e => ?_)
+      refine PropagatesX.bind_ioSafe (DirEntry.toDir_ioSafe _ _) (fun sub => ?_)
+      exact thenDrop_propagatesX _ (ih _ _)
+    · refine PropagatesX.bind_ioSafe (checkForExistence_ioSafe _ _ _ _) (fun r => ?_)
       split
-      · refine PropagatesX.bind (ioSafe_propagates (liftE_ioSafe _)).toX (fun _ => ?_)
-        refine PropagatesX.bind (ioSafe_propagates (allocClusterFs_ioSafe _ _)).toX (fun cluster => ?_)
-        refine PropagatesX.bind (ioSafe_propagates (createSfnEntry_ioSafe _ _ _)).toX (fun sfn => ?_)
-        refine PropagatesX.attemptThen (ioSafe_propagates (writeEntry_ioSafe _ _ _)) ?_ ?_
+      · refine PropagatesX.bind_ioSafe (liftE_ioSafe _) (fun _ => ?_)
+        refine PropagatesX.bind_ioSafe (allocClusterFs_ioSafe _ _) (fun cluster => ?_)
+        refine PropagatesX.bind_ioSafe (createSfnEntry_ioSafe _ _ _) (fun sfn => ?_)
+        refine PropagatesX.attemptThenX (writeEntry_apiX _ _ _) ?_ ?_ ?_
         · intro r
-          refine (ioSafe_propagates ?_).toX
-          iosafe [freeClusterChain_ioSafe, DirEntry.toDir_ioSafe, createSfnEntry_ioSafe, writeEntry_ioSafe,
-            DirStream.dropBody_nonFatal]
+          refine PropagatesX.bind_ioSafe ?_ (fun entry => ?_)
+          · iosafe [freeClusterChain_ioSafe]
+          refine PropagatesX.bind_ioSafe (DirEntry.toDir_ioSafe _ _) (fun dir => ?_)
+          refine PropagatesX.finallyDrop ?_ ?_
+          · refine PropagatesX.bind_ioSafe (createSfnEntry_ioSafe _ _ _) (fun dot => ?_)
+            refine PropagatesX.bind (writeEntry_apiX _ _ _) (fun _ => ?_)
+            dsimp only
+            refine PropagatesX.bind_ioSafe (createSfnEntry_ioSafe _ _ _) (fun dotdot => ?_)
+            exact PropagatesX.bind (writeEntry_apiX _ _ _) (fun _ => (ioSafe_propagates (IoSafe.pure _)).toX)
+          · intro o
+            split
+            · exact NonFatal.pure _
+            · exact DirStream.dropBody_nonFatal _
         · intro j d1 f h1 h2 r d' hr
           change run (Prog.bind (Prog.bind (freeClusterChain cluster) (fun _ => Prog.fail (.io j))) _) d1 = _ at hr
           simp only [run] at hr
@@ -36,7 +54,15 @@ theorem createDir_propagatesX (env) : ∀ fuel d path, PropagatesX RollbackErr (
           rw [hfree] at hr
           cases rf with
           | ok u => simp only at hr; cases hr; left; rfl
-          | error e => simp only at hr; cases hr; right; exact ⟨e, rfl, cluster, d1, _, h1, h2, hfree⟩
+          | error e => simp only at hr; cases hr; right; exact ⟨e, rfl, Or.inl ⟨cluster, d1, _, h1, h2, hfree⟩⟩
+        · intro e d1 f hx h1 h2 r d' hr
+          change run (Prog.bind (Prog.bind (freeClusterChain cluster) (fun _ => Prog.fail e)) _) d1 = _ at hr
+          simp only [run] at hr
+          rcases hfree : run (freeClusterChain cluster) d1 with ⟨rf, d2⟩
+          rw [hfree] at hr
+          cases rf with
+          | ok u => simp only at hr; cases hr; exact ⟨e, rfl, hx⟩
+          | error e' => simp only at hr; cases hr; exact ⟨e', rfl, Or.inl ⟨cluster, d1, _, h1, h2, hfree⟩⟩
       · exact (ioSafe_propagates (DirEntry.toDir_ioSafe _ _)).toX
 
 end FatVerif
